@@ -91,6 +91,14 @@ func runOne(ctx context.Context, sp solverSpec, query string, timeoutMs int) Sol
 // solver wins; unknown only if all give up.  The query must end with
 // (check-sat) (get-model).
 func Solve(query string, timeoutMs int, only string) SolverResult {
+	if only == "" && timeoutMs > 1500 {
+		// stage 1: most obligations are easy; try one solver alone first
+		// (keeps the CPU for the other obligations), then race all three
+		r := runOne(context.Background(), solvers[2], query, 1500)
+		if r.Status == "unsat" || r.Status == "sat" {
+			return r
+		}
+	}
 	ctx, cancel := context.WithCancel(context.Background())
 	defer cancel()
 	ch := make(chan SolverResult, len(solvers))
